@@ -1,6 +1,7 @@
 /- Driver ops for C17: probability_bounds and the places where estimators apply it. -/
 import Driver.Common
 import ZepidVerif.Model.Bounds
+import ZepidVerif.Gen.BoundSites
 namespace ZVD
 open ZV
 
@@ -29,7 +30,111 @@ def zip3 {α β γ} : List α → List β → List γ → List (α × β × γ)
   | a :: as, b :: bs, c :: cs => (a, b, c) :: zip3 as bs cs
   | _, _, _ => []
 
-/-- `bw kind=… spec=… falsy=0|1 …`: the estimator use sites of the bound, Float carrier -/
+/-! `bw … gsite=<site>`: the same use sites evaluated by the code REGENERATED from the estimator method
+(`Gen/BoundSites.lean`): `pb` = clip by the accepted interval, `bound` = the argument was truthy.  The reply has the
+format of the model's reply plus `model=1|0` (bitwise agreement with the hand-written use-site function). -/
+
+def genPb (iv : Option (Float × Float)) : Float → Float :=
+  match iv with
+  | none => fun x => x
+  | some (lo, hi) => Bounds.clip1 lo hi
+
+def sameFl (x y : List Float) : Bool := x.map Float.toBits == y.map Float.toBits
+
+/-- does the named caller of `iptw_calculator` hand its own `bound` on? (generated flags) -/
+def callerPasses (c : String) : Except String Bool :=
+  match c with
+  | "IPTW" => pure ZV.Gen.IPTW_treatment_model_passes_bound
+  | "IPSW" => pure ZV.Gen.IPSW_treatment_model_passes_bound
+  | "AIPSW" => pure ZV.Gen.AIPSW_treatment_model_passes_bound
+  | "AIPTW" => pure ZV.Gen.AIPTW_exposure_model_passes_bound
+  | _ => throw ("unknown-caller:" ++ c)
+
+def pairSite (g : String) : Except String ((Float → Float) → Bool → Float → Float × Float) :=
+  match g with
+  | "AIPTW_exposure_model" => pure ZV.Gen.AIPTW_exposure_model_site
+  | "TMLE_exposure_model" => pure ZV.Gen.TMLE_exposure_model_site
+  | "SingleCrossfitAIPTW" => pure ZV.Gen.SingleCrossfitAIPTW_site
+  | "DoubleCrossfitAIPTW" => pure ZV.Gen.DoubleCrossfitAIPTW_site
+  | "SingleCrossfitTMLE" => pure ZV.Gen.SingleCrossfitTMLE_site
+  | "DoubleCrossfitTMLE" => pure ZV.Gen.DoubleCrossfitTMLE_site
+  | _ => throw ("unknown-gsite:" ++ g)
+
+def opBwGen (g kind : String) (iv : Option (Float × Float)) (a : Args) : Except String String := do
+  let iv ← match a.get? "caller" with
+    | some c => do pure (if (← callerPasses c) then iv else none)
+    | none => pure iv
+  let pb := genPb iv
+  let b := iv.isSome
+  match kind with
+  | "iptw" =>
+    if g != "iptw_calculator" then throw ("unknown-gsite:" ++ g)
+    let stab ← need a "stab" parseBool
+    let std ← need a "std" some
+    let rows := zip3 (← bools a "a") (← fls a "n") (← fls a "d")
+    let out := rows.map fun (a1, n, d) => ZV.Gen.iptw_calculator_site pb b stab std a1 n d
+    let mdl := rows.map fun (a1, n, d) => Bounds.iptwRow stab std iv a1 n d
+    let ok := sameFl (out.map (·.1)) (mdl.map (·.1)) && sameFl (out.map (·.2.1)) (mdl.map (·.2.1)) && sameFl (out.map (·.2.2)) (mdl.map (·.2.2))
+    pure s!"ok d={showList (fun r => showFloat r.1) out} n={showList (fun r => showFloat r.2.1) out} w={showList (fun r => showFloat r.2.2) out} model={showBool ok}"
+  | "gpair" =>
+    let f ← pairSite g
+    let ps ← fls a "p"
+    let out := ps.map (f pb b)
+    let mdl := ps.map (Bounds.gPair iv)
+    pure s!"ok g1={showList (fun r => showFloat r.1) out} g0={showList (fun r => showFloat r.2) out} model={showBool (sameFl (out.map (·.1)) (mdl.map (·.1)) && sameFl (out.map (·.2)) (mdl.map (·.2)))}"
+  | "cf" =>
+    let f ← pairSite g
+    let ps ← fls a "p"
+    let out := ps.map (f pb b)
+    let mdl := ps.map (Bounds.cfPair iv)
+    pure s!"ok pa1={showList (fun r => showFloat r.1) out} pa0={showList (fun r => showFloat r.2) out} model={showBool (sameFl (out.map (·.1)) (mdl.map (·.1)) && sameFl (out.map (·.2)) (mdl.map (·.2)))}"
+  | "clip" =>
+    -- one vector of a site that clips several: `comp` says which one the values stand for
+    let comp ← need a "comp" some
+    let ps ← fls a "p"
+    let f : Float → Float ← match g, comp with
+      | "AIPTW_missing_model", "m1" => pure fun x => (ZV.Gen.AIPTW_missing_model_site pb b x x).1
+      | "AIPTW_missing_model", "m0" => pure fun x => (ZV.Gen.AIPTW_missing_model_site pb b x x).2
+      | "TMLE_missing_model", "m1" => pure fun x => (ZV.Gen.TMLE_missing_model_site pb b x x).1
+      | "TMLE_missing_model", "m0" => pure fun x => (ZV.Gen.TMLE_missing_model_site pb b x x).2
+      -- the unbounded run's predictions are already clipped by the continuous bound: pbcb = identity on them
+      | "TMLE_outcome_model", "q1" => pure fun x => (ZV.Gen.TMLE_outcome_model_site pb (fun y => y) b 1 x x).1
+      | "TMLE_outcome_model", "q0" => pure fun x => (ZV.Gen.TMLE_outcome_model_site pb (fun y => y) b 1 x x).2.1
+      | "StochasticTMLE_outcome_model", "qinit" => pure fun x => ZV.Gen.StochasticTMLE_outcome_model_site pb (fun y => y) b x
+      | _, _ => throw ("unknown-gsite:" ++ g ++ "/" ++ comp)
+    let out := ps.map f
+    pure s!"ok p={showList showFloat out} model={showBool (sameFl out (ps.map (Bounds.applyB iv)))}"
+  | "qaw" =>
+    -- TMLE.outcome_model: the prediction under the observed exposure, assembled by the generated lines
+    if g != "TMLE_outcome_model" then throw ("unknown-gsite:" ++ g)
+    let rows := zip3 (← fls a "a") (← fls a "q1") (← fls a "q0")
+    let out := rows.map fun (x, q1, q0) => (ZV.Gen.TMLE_outcome_model_site pb (fun y => y) b x q1 q0).2.2
+    pure s!"ok qaw={showList showFloat out}"
+  | "stoch" =>
+    if g != "StochasticTMLE_exposure_model" then throw ("unknown-gsite:" ++ g)
+    let rows := (← bools a "a").zip (← fls a "p")
+    let out := rows.map fun (a1, p) => ZV.Gen.StochasticTMLE_exposure_model_site pb b a1 p
+    pure s!"ok den={showList showFloat out} model={showBool (sameFl out (rows.map fun (a1, p) => Bounds.stochDen iv a1 p))}"
+  | "ipmw" =>
+    let f ← match g with
+      | "IPTW_missing_model" => pure (ZV.Gen.IPTW_missing_model_site (F := Float))
+      | "GEstimationSNM_missing_model" => pure (ZV.Gen.GEstimationSNM_missing_model_site (F := Float))
+      | _ => throw ("unknown-gsite:" ++ g)
+    let rows := (← fls a "n").zip (← fls a "d")
+    let out := rows.map fun (n, d) => f pb b true (0.0 / 0.0) n d
+    pure s!"ok w={showList showFloat out} model={showBool (sameFl out (rows.map fun (n, d) => Bounds.ipmwRow iv n d))}"
+  | "ipsw" =>
+    if g != "IPSW_sampling_model" then throw ("unknown-gsite:" ++ g)
+    let gen ← need a "gen" parseBool
+    let stab ← need a "stab" parseBool
+    let rows := (← fls a "n").zip (← fls a "d")
+    let out := rows.map fun (n, d) => ZV.Gen.IPSW_sampling_model_site pb b gen stab n d
+    let mdl := rows.map fun (n, d) => Bounds.ipswRow gen stab iv n d
+    let ok := sameFl (out.map (·.1)) (mdl.map (·.1)) && sameFl (out.map (·.2.1)) (mdl.map (·.2.1)) && sameFl (out.map (·.2.2)) (mdl.map (·.2.2))
+    pure s!"ok d={showList (fun r => showFloat r.1) out} n={showList (fun r => showFloat r.2.1) out} w={showList (fun r => showFloat r.2.2) out} model={showBool ok}"
+  | _ => throw ("unknown-kind:" ++ kind)
+
+/-- `bw kind=… spec=… falsy=0|1 [gsite=…] …`: the estimator use sites of the bound, Float carrier -/
 def opBw (a : Args) : Except String String := do
   let kind ← need a "kind" some
   let spec ← need a "spec" parseSpec
@@ -37,6 +142,7 @@ def opBw (a : Args) : Except String String := do
   match Bounds.estimatorBound falsy spec with
   | .error e => pure ("err " ++ showErr e)
   | .ok iv =>
+    if let some g := a.get? "gsite" then return (← opBwGen g kind iv a)
     match kind with
     | "iptw" =>
       let stab ← need a "stab" parseBool
